@@ -309,9 +309,39 @@ def oracle_model(rng, user, cons, sets, kinds, atoms, comp):
     return None
 
 
+def mentioned_variables(cons, sets):
+    """names of the user Variables that occur with a nonzero coefficient somewhere in the model: in an affine cell, or in ANY argument
+    (any component) of a nonlinear atom"""
+    from sageopt.coniclifts.base import ScalarVariable
+    names = set()
+
+    def visit_cell(se):
+        for at, co in se.atoms_to_coeffs.items():
+            if co == 0:
+                continue
+            if isinstance(at, ScalarVariable):
+                if at.parent is not None:
+                    names.add(at.parent.name)
+            else:
+                for arg in at.args:
+                    for item in arg:
+                        if isinstance(item, tuple) and len(item) == 2 and isinstance(item[0], ScalarVariable) and item[1] != 0 \
+                                and item[0].parent is not None:
+                            names.add(item[0].parent.name)
+    for c in cons:
+        for arr in (c.lhs, c.rhs):
+            for se in arr.flat:
+                visit_cell(se)
+    for s_, _, _ in sets:
+        for se in s_.y.flat:
+            visit_cell(se)
+    return names
+
+
 def one_case(rng):
     import sageopt.coniclifts as cl
     user, cons, sets, kinds = build_model(rng)
+    expected_names = mentioned_variables(cons, sets)
     tbl, dummy, cs, ss, atoms = observe_inputs(cons, sets)
     js = {'kinds': [str(k) for k in kinds]}
     def has_atoms(arr):
@@ -330,6 +360,10 @@ def one_case(rng):
         return None, js, None, 'compile raised %r' % (e,), kinds
     if out == 'BADCOLS':
         return None, js, None, 'svid2col does not enumerate the columns of A', kinds
+    missing = sorted(nm for nm in expected_names if nm not in names or nm not in variable_map)
+    if missing:
+        return None, js, None, ('the user Variables %s occur in the constraints (possibly only in a later argument or component of a nonlinear '
+                                'atom) but are missing from the compiled system\'s Variables / variable_map %s' % (missing, sorted(names))), kinds
     why = oracle_model(rng, user, cons, sets, kinds, atoms, comp)
     if why is None and rng.random() < 0.3:
         # the conic system is a function of the constraints: compiling the same objects again (and again) states the same system
@@ -383,9 +417,66 @@ def run(ctx):
             ctx.problem('correspondence', 'suite compile: model and implementation disagree on model %s; input=%s impl=%s model=%s '
                         '(the semantic oracle passed on this model)' % (cases[idx][0], cases[idx][1][:1500], cases[idx][2][:1500], model_out[:1500]),
                         inputs={'model': cases[idx][0]}, failing_input_found=False)
+    for _ in range(ctx.n(12, 100)):
+        why = oracle_powcone(ctx.rng)
+        ctx.evaluations += 1
+        ctx.count('constraint_kind', 'powcone(oracle only)')
+        if why:
+            ctx.problem('oracle', 'property fails on the implementation: ' + why, inputs={'suite': 'powcone'}, failing_input_found=True)
+            break
     why = probe_known()
     if why:
         ctx.known_hits.append(why)
+
+
+def oracle_powcone(rng):
+    """PowCone(w, lamb) is outside the row model; its compiled rows are checked semantically: for sampled assignments, the rows
+    A z + b lie in the power cone K announces (weights from K, last row = z) iff prod w_i^alpha_i >= |z| holds for the constraint's
+    own w, z (the position of z in w is arbitrary)"""
+    import sageopt.coniclifts as cl
+    from sageopt.coniclifts.constraints.set_membership.pow_cone import PowCone
+    n = rng.randint(2, 3)
+    zpos = rng.randrange(n + 1)
+    pos = [float(rng.choice([1, 2, 3])) for _ in range(n)]
+    lamb = np.array(pos[:zpos] + [-sum(pos)] + pos[zpos:])
+    x = cl.Variable(shape=(n + 1,), name='pw')
+    M = np.eye(n + 1)
+    if rng.random() < 0.5:
+        M[0, n] = 0.5
+    off = np.array([float(rng.choice([0, 0, 1])) for _ in range(n + 1)])
+    w = M @ x + off
+    with warnings.catch_warnings():
+        warnings.simplefilter('ignore')
+        con = PowCone(w, lamb)
+        A, b, K, vm, vs, _ = cl.compile_constrained_system([con])
+    pc = [co for co in K if co.type == 'pow']
+    if len(pc) != 1 or pc[0].len != n + 1 or A.shape[0] != n + 1:
+        return 'PowCone over %d entries compiles to cones %s' % (n + 1, [(co.type, co.len) for co in K])
+    wts = np.asarray(pc[0].annotations['weights'], dtype=float).ravel()
+    cols = vm[x.name].ravel()
+    bad = 0
+    for _ in range(60):
+        xv = np.array([rng.choice([0.25, 0.5, 1.0, 2.0, 3.0, -1.0, -0.5, 4.0]) for _ in range(n + 1)])
+        zfull = np.zeros(A.shape[1])
+        zfull[cols] = xv
+        r = np.asarray(A @ zfull + b).ravel()
+        wv = M @ xv + off
+        wp, zz = np.delete(wv, zpos), wv[zpos]
+        al = np.delete(lamb, zpos) / abs(lamb[zpos])
+        if np.any(wp <= 0):
+            want = False
+            margin = 1.0
+        else:
+            val = float(np.prod(np.power(wp, al)))
+            want = val >= abs(zz)
+            margin = abs(val - abs(zz))
+        if margin < 1e-6:
+            continue
+        got = bool(np.all(r[:-1] > 0)) and float(np.prod(np.power(np.maximum(r[:-1], 1e-300), wts[:len(r) - 1] if len(wts) >= len(r) - 1 else wts))) >= abs(r[-1])
+        if got != want:
+            return ('PowCone(w, lamb=%s): at x=%s the constraint prod w_i^alpha_i >= |z| is %s but the compiled rows %s with weights %s say %s'
+                    % (lamb.tolist(), xv.tolist(), want, r.tolist(), wts.tolist(), got))
+    return None
 
 
 def probe_known():
